@@ -146,4 +146,4 @@ CLAIMS['C19'] = dict(technique=GOCV,
        "(loop step clause: the written count grows by one exactly for those declarations); ExistingImports yields one entry per import spec in order with its own alias and path; "
        "resolvergen looks previous implementations up under exactly lcFirst(Object)+ucFirst(ResolverType), the name resolver.gotpl emits; "
        "prefixLines (used to re-emit doc comments) prefixes every line including empty ones; import pruning parses with object resolution on, which its shadowing test relies on.",
-  note=COMMON_NOTE + "The template text itself (that body/comment are placed unchanged, that the result is valid Go, e.g. a trailing line comment swallowing the closing brace), import pruning and repeated regeneration are NOT decided: seeded change C19b (a whitespace edit in resolver.gotpl) is a documented miss.")
+  note=COMMON_NOTE + "The template text itself (that body/comment are placed unchanged, that the result is valid Go, e.g. a trailing line comment swallowing the closing brace), import pruning and repeated regeneration are decided only on the /verif probe resolverkeep (a resolver file holding user code is regenerated from the working tree's templates and the surviving methods are verified): other schemas, the single-file layout and custom templates are not covered; a doc comment is NOT kept verbatim (known finding D22).")
